@@ -1932,6 +1932,21 @@ def decide_on_values(pe, text, env, rep=None, generic=True):
             if isinstance(a, Node):
                 raise Unknown()
             return -a
+        if isinstance(n, ast.Call) and ast.unparse(n.func) in ("np.linalg.norm", "numpy.linalg.norm", "la.norm") and generic:
+            return GENERIC_MAGNITUDE
+        if isinstance(n, ast.BinOp) and isinstance(n.op, (ast.Mult, ast.Div, ast.Pow)):
+            a, b = val(n.left), val(n.right)
+            if isinstance(a, Node) or isinstance(b, Node):
+                raise Unknown()
+            if isinstance(n.op, ast.Mult):
+                return a * b
+            if isinstance(n.op, ast.Div):
+                if b == 0:
+                    raise Unknown()
+                return a / b
+            if b.denominator == 1 and abs(b) < 20:
+                return a ** int(b)
+            raise Unknown()
         if isinstance(n, ast.Call) and ast.unparse(n.func) in ("np.abs", "abs", "np.fabs", "numpy.abs") and len(n.args) == 1:
             a = val(n.args[0])
             if isinstance(a, Node):
@@ -1941,7 +1956,7 @@ def decide_on_values(pe, text, env, rep=None, generic=True):
             return abs(a)
         raise Unknown()
 
-    GENERIC_MAGNITUDE = Fraction(10 ** 6)
+    GENERIC_MAGNITUDE = Fraction(1)          # |generic value|, norm of a generic matrix: of order one
 
     def same(a, b):
         if isinstance(a, Node) or isinstance(b, Node):
